@@ -90,7 +90,18 @@ def main():
             t0 = time.time()
             rc, out = sh([os.path.join(VERIF, "check"), pid, os.environ.get("TIER", "quick")], VERIF, timeout=3600, env=env)
             viol = [l for l in out.splitlines() if l.startswith("----") or l.startswith("VIOLATION") or l.startswith("INCONCLUSIVE")]
-            meta["checks"][pid] = {"exit": rc, "caught": rc == 1, "seconds": round(time.time() - t0, 1), "first_report": (viol[0][:600] if viol else "")}
+            sigs = []
+            for l in out.splitlines():
+                # "VIOLATION property=<id> replay=<path>": the replay file names the oracle clause that failed
+                if l.startswith("VIOLATION") and "replay=" in l:
+                    rp = l.split("replay=", 1)[1].strip()
+                    try:
+                        sg = json.load(open(rp)).get("sig", "")
+                        if sg and sg not in sigs:
+                            sigs.append(sg)
+                    except Exception:
+                        pass
+            meta["checks"][pid] = {"exit": rc, "caught": rc == 1, "seconds": round(time.time() - t0, 1), "first_report": (viol[0][:600] if viol else ""), "oracle_clauses": sigs}
     finally:
         shutil.rmtree(scratch, ignore_errors=True)
     dst = os.path.join(VERIF, "seeded", name)
